@@ -168,16 +168,62 @@ let handle_h f =
     "ok|" ^ shape es ^ "|" ^ hexs b1 ^ "|" ^ e1 ^ "|" ^ pb ^ ""
 
 (* T|tag|K or E|<json text hex>: the JSON text of a Keyset / EncryptedKeyset through the JSON reader.
-   The model parses the TEXT itself and prints the message as canonical protobuf bytes. *)
+   The model parses the TEXT itself and prints the message as canonical protobuf bytes.
+   Both printers of the model are run on what the reader produced (print, read back, same message).
+   On jt-tink-writer lines the text is what Tink's own JSON writer (protojson.Marshal with
+   EmitUnpopulated) emitted: it must equal the model's protojson-style text
+   (json_text_pj_of_*: enum names, standard padded base64, every field present) once the white
+   space protojson injects outside strings is removed - unless the text uses one of the short
+   string escapes (\b \f \n \r \t) or non-ASCII escapes where protojson and the model's
+   printer write the same string differently. *)
+let strip_ws_outside_strings (s : string) : string =
+  let b = Buffer.create (String.length s) in
+  let in_str = ref false and esc = ref false in
+  String.iter (fun c ->
+      if !in_str then begin
+        Buffer.add_char b c;
+        if !esc then esc := false
+        else if c = '\\' then esc := true
+        else if c = '"' then in_str := false
+      end else if c = '"' then (in_str := true; Buffer.add_char b c)
+      else if c = ' ' || c = '\n' || c = '\t' || c = '\r' then ()
+      else Buffer.add_char b c) s;
+  Buffer.contents b
+let same_escapes (s : string) : bool =
+  (* only the quote and backslash escapes: there the two printers agree *)
+  let ok = ref true in
+  let n = String.length s in
+  let i = ref 0 in
+  while !i < n do
+    if s.[!i] = '\\' && !i + 1 < n then begin
+      (match s.[!i + 1] with '"' | '\\' -> () | _ -> ok := false);
+      i := !i + 2
+    end else incr i
+  done;
+  !ok
+let string_of_nbytes (b : n list) : string =
+  let buf = Buffer.create 64 in List.iter (fun x -> Buffer.add_char buf (Char.chr (int_of_n x))) b; Buffer.contents buf
+let compare_with_writer (tag : string) (text : n list) (model_text : n list) : unit =
+  if String.length tag >= 14 && String.sub tag 0 14 = "jt-tink-writer" then begin
+    let theirs = strip_ws_outside_strings (string_of_nbytes text) in
+    let ours = string_of_nbytes model_text in
+    if same_escapes theirs && theirs <> ours then
+      failwith ("model: the protojson-style text of the message differs from what Tink's JSON writer emitted: model "
+                ^ ours ^ " writer " ^ theirs)
+  end
 let handle_t f =
   let text = unhex f.(3) in
   if f.(2) = "K" then begin
-    (* the printer on what the reader produced: print, read back, same message *)
+    (* the printers on what the reader produced: print, read back, same message *)
     (match keyset_of_json_text text with
      | Some jks ->
        (match keyset_of_json_text (json_text_of_keyset jks) with
         | Some jks' when jks' = jks -> ()
-        | _ -> failwith "model: printed keyset text does not read back")
+        | _ -> failwith "model: printed keyset text does not read back");
+       (match keyset_of_json_text (json_text_pj_of_keyset jks) with
+        | Some jks' when jks' = jks -> ()
+        | _ -> failwith "model: protojson-style keyset text does not read back");
+       compare_with_writer f.(1) text (json_text_pj_of_keyset jks)
      | None -> ());
     match canon_keyset_bytes text with Some b -> "ok|" ^ hexs b | None -> "err"
   end else begin
@@ -185,7 +231,11 @@ let handle_t f =
      | Some e ->
        (match encrypted_of_json_text (json_text_of_encrypted e) with
         | Some e' when e' = e -> ()
-        | _ -> failwith "model: printed EncryptedKeyset text does not read back")
+        | _ -> failwith "model: printed EncryptedKeyset text does not read back");
+       (match encrypted_of_json_text (json_text_pj_of_encrypted e) with
+        | Some e' when e' = e -> ()
+        | _ -> failwith "model: protojson-style EncryptedKeyset text does not read back");
+       compare_with_writer f.(1) text (json_text_pj_of_encrypted e)
      | None -> ());
     match canon_encrypted_bytes text with Some b -> "ok|" ^ hexs b | None -> "err"
   end
